@@ -39,6 +39,18 @@ CHECKS.update({
    text="Every function performing the checked signed add (varintTaggedAdd, varintExternalAdd_) is matched against the decode / checked-add / measure / conditional-put shape: measured value == stored value == the intrinsic's sum (SSA identity), the put is dominated by the no-overflow edge and by the strict newWidth > oldWidth test (growth only behind force), the overflow edge returns 0 and reaches no write through the varint pointer. The byte extent of the put itself (exactly width(value) bytes) is C01's clause, referenced not re-proved.",
    note=TB + "Pattern-specific: a differently shaped implementation is reported as analysis-broken (exit 2), not as a pass.",
    tech="static analysis: SSA value-identity and dominance rules on LLVM IR"),
+ "C01": dict(engine="E1 + W + E-ACC", cat="other", ref="DESIGN.md 4/C01, 3/E1",
+   text="For the 9 scalar families, their reversed, fixed-width, quick-macro and 32-bit forms (100+ class tables): the lengths returned by the encoder, predicted from the value and read back from the tag byte induce the same partition of the whole value domain; lengths lie in the documented range; the written offsets are exactly [0,len); the sign helpers' relocation constant is representable (compile-fail witness); no typed multi-byte access goes through a byte pointer. decode(encode(x))==x itself is NOT decided (decoder tables not built) beyond these necessary clauses and C04's byte-exact tables.",
+   note=TB + E1NOTE,
+   tech="static analysis: abstract interpretation (interval-partitioned symbolic constant propagation), compile-fail witnesses, access-shape lint on LLVM IR"),
+ "C04": dict(engine="E1 + W", cat="other", ref="DESIGN.md 4/C04, 3/E1",
+   text="Every scalar encoder's class table (x-interval -> length, byte terms) equals an independent format table written from the documentation (tagged/sqlite4, chained/sqlite3, chained-simple/base-128, external LE/BE, the four split layouts incl. reversed forms), cell by cell on the common refinement; classes partition the domain with non-decreasing length; per-length maxima equal the header constants (52 static assertions) and the README tables; never-shrink rule holds. Elias bit codes and zig-zag are NOT decided.",
+   note=TB + E1NOTE + "The format tables in sa/spec_formats.py are the trusted oracle.",
+   tech="static analysis: abstract interpretation producing closed-form class tables, compared with reference tables; compile-time witnesses"),
+ "C05": dict(engine="E1", cat="proof", ref="DESIGN.md 4/C05",
+   text="Full property as a proof over the class table extracted from varintTaggedPut64: first-byte ranges of consecutive classes are disjoint and increasing; within a class the bytes are the most-significant-first base-256 digits of x-a plus a constant first-byte offset; the length readers are functions of byte 0 returning the class length. Lemma: memcmp order == numeric order for all 2^128 pairs and, by prefix-freeness, for all tuples.",
+   note=TB + E1NOTE,
+   tech="static analysis: abstract interpretation producing a closed-form class table + ordering lemma checked on the table"),
 })
 NA = {
  "C02": "losslessness of array codecs is value-level equality after arithmetic; no clause has a shape in the code that static analysis can decide (DESIGN.md 4/C02)",
